@@ -80,11 +80,11 @@ func digitOracle(c *engine.Chooser, site string, ctx string, Q, P []uint64, leve
 		d := ref.Center(ref.CRT(res, all), M)
 		// congruent to x modulo the digit modulus
 		if new(big.Int).Mod(new(big.Int).Sub(d, x), D).Sign() != 0 {
-			c.Fail(digitSig(site, "digit-not-congruent"), "%s: x=%s digit %d (moduli %v): reconstructed digit %s is not ≡ x mod D=%s (residues %v over %v)", ctx, x, i, Q[lo:hi], d, D, res, all)
+			fail(c, digitSig(site, "digit-not-congruent"), "%s: x=%s digit %d (moduli %v): reconstructed digit %s is not ≡ x mod D=%s (residues %v over %v)", ctx, x, i, Q[lo:hi], d, D, res, all)
 			return false
 		}
 		if new(big.Int).Abs(d).Cmp(D) > 0 {
-			c.Fail(digitSig(site, "digit-exceeds-modulus"), "%s: x=%s digit %d: |%s| > digit modulus %s (residues %v over %v: not one small integer)", ctx, x, i, d, D, res, all)
+			fail(c, digitSig(site, "digit-exceeds-modulus"), "%s: x=%s digit %d: |%s| > digit modulus %s (residues %v over %v: not one small integer)", ctx, x, i, d, D, res, all)
 			return false
 		}
 		// gadget element g_i = P · (Q/D)·((Q/D)^-1 mod D)
@@ -98,7 +98,7 @@ func digitOracle(c *engine.Chooser, site string, ctx string, Q, P []uint64, leve
 	}
 	want := new(big.Int).Mul(PL, x)
 	if new(big.Int).Mod(new(big.Int).Sub(sum, want), M).Sign() != 0 {
-		c.Fail(digitSig(site, "recombination"), "%s: x=%s: Σ d_i·g_i ≢ P·x (mod QP)", ctx, x)
+		fail(c, digitSig(site, "recombination"), "%s: x=%s: Σ d_i·g_i ≢ P·x (mod QP)", ctx, x)
 		return false
 	}
 	return true
@@ -211,7 +211,7 @@ func decomposerTinyScenario(Q, P []uint64, shard, shards int) engine.Scenario {
 			panic("tiny chain too large for the int64 reference") // basis·residue and the sum must stay below 2^63
 		}
 		M := prod(all).Int64()
-		nPolys := (S + N - 1) / N
+		nPolys := (S + int64(N) - 1) / int64(N)
 		lo := nPolys * int64(part) / int64(parts*shards)
 		hi := nPolys * int64(part+1) / int64(parts*shards)
 		in := rQ.NewPoly()
@@ -229,7 +229,7 @@ func decomposerTinyScenario(Q, P []uint64, shard, shards int) engine.Scenario {
 		var h uint64
 		for p := lo; p < hi; p++ {
 			for j := 0; j < N; j++ {
-				x := uint64((p*N + int64(j)) % S)
+				x := uint64((p*int64(N) + int64(j)) % S)
 				for i, q := range Q {
 					in.Coeffs[i][j] = x % q
 				}
@@ -238,7 +238,7 @@ func decomposerTinyScenario(Q, P []uint64, shard, shards int) engine.Scenario {
 				dec.DecomposeAndSplit(levelQ, levelP, nbPi, i, in, outQ[i], outP[i])
 			}
 			for j := 0; j < N; j++ {
-				x := (p*N + int64(j)) % S
+				x := (p*int64(N) + int64(j)) % S
 				for i := 0; i < nDigits; i++ {
 					glo, ghi := digitGroup(i, nbPi, levelQ)
 					D := int64(1)
@@ -263,11 +263,11 @@ func decomposerTinyScenario(Q, P []uint64, shard, shards int) engine.Scenario {
 						d -= M
 					}
 					if ((d-x)%D+D)%D != 0 {
-						c.Fail("C02/decompose/DecomposeAndSplit/digit-not-congruent", "Q=%v P=%v x=%d digit %d: d=%d not ≡ x mod %d", Q, P, x, i, d, D)
+						fail(c, "C02/decompose/DecomposeAndSplit/digit-not-congruent", "Q=%v P=%v x=%d digit %d: d=%d not ≡ x mod %d", Q, P, x, i, d, D)
 						return
 					}
 					if d > D || d < -D {
-						c.Fail("C02/decompose/DecomposeAndSplit/digit-exceeds-modulus", "Q=%v P=%v x=%d digit %d: |d|=|%d| > %d", Q, P, x, i, d, D)
+						fail(c, "C02/decompose/DecomposeAndSplit/digit-exceeds-modulus", "Q=%v P=%v x=%d digit %d: |d|=|%d| > %d", Q, P, x, i, d, D)
 						return
 					}
 				}
@@ -285,11 +285,19 @@ func decomposerTinyScenario(Q, P []uint64, shard, shards int) engine.Scenario {
 
 // rlweParams builds (and caches per worker: parameters are immutable) the rlwe parameters for a chain.
 func rlweParams(Q, P []uint64) (rlwe.Parameters, error) {
-	k := fmt.Sprint(Q, P)
+	for _, q := range append(append([]uint64{}, Q...), P...) {
+		if q > leafMaxPrime {
+			leafMaxPrime = q
+		}
+	}
+	k := fmt.Sprint(N, CI, Q, P)
 	if p, ok := paramsCache[k]; ok {
 		return p, nil
 	}
-	lit := rlwe.ParametersLiteral{LogN: 4, Q: Q, NTTFlag: true}
+	lit := rlwe.ParametersLiteral{LogN: logN(), Q: Q, NTTFlag: true}
+	if CI {
+		lit.RingType = ring.ConjugateInvariant
+	}
 	if len(P) > 0 {
 		lit.P = P
 	}
@@ -312,14 +320,14 @@ func evaluatorDecomposeScenario(ch chain, nQ, nP int) engine.Scenario {
 		single := c.Choose(2, "entry") == 1 // DecomposeNTT or one DecomposeSingleNTT per digit
 		params, err := rlweParams(Q, P)
 		if err != nil {
-			c.Fail("C02/decompose/rlwe-parameters-rejected", "rlwe parameters Q=%v P=%v rejected: %v", Q, P, err)
+			fail(c, "C02/decompose/rlwe-parameters-rejected", "rlwe parameters Q=%v P=%v rejected: %v", Q, P, err)
 			return
 		}
 		eval := rlwe.NewEvaluator(params, nil)
 		nbPi := levelP + 1
 		nDigits := params.BaseRNSDecompositionVectorSize(levelQ, levelP)
 		if nDigits != ceilDiv(levelQ+1, nbPi) {
-			c.Fail("C02/decompose/BaseRNSDecompositionVectorSize", "BaseRNSDecompositionVectorSize(%d,%d)=%d, want ceil((levelQ+1)/(levelP+1))=%d", levelQ, levelP, nDigits, ceilDiv(levelQ+1, nbPi))
+			fail(c, "C02/decompose/BaseRNSDecompositionVectorSize", "BaseRNSDecompositionVectorSize(%d,%d)=%d, want ceil((levelQ+1)/(levelP+1))=%d", levelQ, levelP, nDigits, ceilDiv(levelQ+1, nbPi))
 			return
 		}
 		rQ := params.RingQ().AtLevel(levelQ)
@@ -421,7 +429,7 @@ func gadgetRecombineScenario(ch chain, nQ, nP int) engine.Scenario {
 		isNTT := c.Choose(2, "IsNTT") == 0
 		params, err := rlweParams(Q, P)
 		if err != nil {
-			c.Fail("C02/decompose/rlwe-parameters-rejected", "rlwe parameters Q=%v P=%v rejected: %v", Q, P, err)
+			fail(c, "C02/decompose/rlwe-parameters-rejected", "rlwe parameters Q=%v P=%v rejected: %v", Q, P, err)
 			return
 		}
 		class := "rns"
@@ -478,7 +486,7 @@ func gadgetRecombineScenario(ch chain, nQ, nP int) engine.Scenario {
 				ctQP := &rlwe.Element[ringqp.Poly]{MetaData: &rlwe.MetaData{}, Value: []ringqp.Poly{rQP.NewPoly(), rQP.NewPoly()}}
 				ctQP.IsNTT = isNTT
 				if err := eval.GadgetProductLazy(levelQ, cx, gct, ctQP); err != nil {
-					c.Fail("C02/gadget/GadgetProductLazy/error", "levelQ=%d levelP=%d base2=%d: %v", levelQ, levelP, base2, err)
+					fail(c, "C02/gadget/GadgetProductLazy/error", "levelQ=%d levelP=%d base2=%d: %v", levelQ, levelP, base2, err)
 					return
 				}
 				if isNTT {
@@ -518,14 +526,14 @@ func gadgetRecombineScenario(ch chain, nQ, nP int) engine.Scenario {
 						switch {
 						case class == "noP-base2=0" && levelQ > 0:
 							// known input class: see FINDINGS.md (every leaf of this class fails; nothing else is checked in it)
-							c.Fail(sigNoPBase2Zero, "%s", msg)
+							fail(c, sigNoPBase2Zero, "%s", msg)
 							return
 						case inUncovered:
 							// known input class; keep judging the other coefficients of this leaf
-							c.Fail("C02/pow2/BaseTwoDecompositionVectorSize/digits-do-not-cover-modulus", "%s", msg)
+							fail(c, "C02/pow2/BaseTwoDecompositionVectorSize/digits-do-not-cover-modulus", "%s", msg)
 							uncovered++
 						default:
-							c.Fail("C02/gadget/GadgetProductLazy/"+class+"/recombination", "%s", msg)
+							fail(c, "C02/gadget/GadgetProductLazy/"+class+"/recombination", "%s", msg)
 							return
 						}
 					}
@@ -557,7 +565,7 @@ func pow2Scenario(ch chain) engine.Scenario {
 		q := ch.Q[qi]
 		params, err := rlweParams(ch.Q, ch.P[:1])
 		if err != nil {
-			c.Fail("C02/decompose/rlwe-parameters-rejected", "rlwe parameters rejected: %v", err)
+			fail(c, "C02/decompose/rlwe-parameters-rejected", "rlwe parameters rejected: %v", err)
 			return
 		}
 		nDig := params.BaseTwoDecompositionVectorSize(len(ch.Q)-1, 0, pw2)[qi]
@@ -591,7 +599,7 @@ func pow2Scenario(ch chain) engine.Scenario {
 				ring.MaskVec(in, j*pw2, mask, out)
 				for l := 0; l < N; l++ {
 					if out[l] > mask {
-						c.Fail("C02/pow2/MaskVec/digit-exceeds-base", "MaskVec(x=%d, w=%d, mask=%#x) = %d > mask", in[l], j*pw2, mask, out[l])
+						fail(c, "C02/pow2/MaskVec/digit-exceeds-base", "MaskVec(x=%d, w=%d, mask=%#x) = %d > mask", in[l], j*pw2, mask, out[l])
 						return
 					}
 					acc[l] += out[l] << uint(j*pw2)
@@ -600,7 +608,7 @@ func pow2Scenario(ch chain) engine.Scenario {
 					// the digits the gadget product actually uses (j < BaseTwoDecompositionVectorSize) must already give x
 					for l := 0; l < N; l++ {
 						if acc[l] != in[l] {
-							c.Fail("C02/pow2/BaseTwoDecompositionVectorSize/digits-do-not-cover-modulus", "q=%d (bit length %d) base2=%d: BaseTwoDecompositionVectorSize=%d digits recombine x=%d to %d", q, bits.Len64(q-1), pw2, nDig, in[l], acc[l])
+							fail(c, "C02/pow2/BaseTwoDecompositionVectorSize/digits-do-not-cover-modulus", "q=%d (bit length %d) base2=%d: BaseTwoDecompositionVectorSize=%d digits recombine x=%d to %d", q, bits.Len64(q-1), pw2, nDig, in[l], acc[l])
 							// the remaining digits are still checked below
 							break
 						}
@@ -609,7 +617,7 @@ func pow2Scenario(ch chain) engine.Scenario {
 			}
 			for l := 0; l < N; l++ {
 				if acc[l] != in[l] {
-					c.Fail("C02/pow2/MaskVec/recombination", "Σ_j MaskVec(x,j·%d)·2^(j·%d) = %d for x=%d", pw2, pw2, acc[l], in[l])
+					fail(c, "C02/pow2/MaskVec/recombination", "Σ_j MaskVec(x,j·%d)·2^(j·%d) = %d for x=%d", pw2, pw2, acc[l], in[l])
 					return
 				}
 			}
